@@ -64,6 +64,9 @@ def confirm(d):
 def detect(d, pids, tier="quick"):
     d = os.path.abspath(d); tag = d.strip("/").replace("/", "_")[-40:]
     wt = worktree(tag); res = {}
+    # the check regenerates coq/gen from the source it is pointed at: keep the files generated from /repo and put them back afterwards
+    gen = os.path.join(VERIF, "coq", "gen"); genbak = "/tmp/seedrun/genbak_%d" % os.getpid()
+    shutil.rmtree(genbak, ignore_errors=True); shutil.copytree(gen, genbak)
     try:
         rc, out = sh("git apply %s" % os.path.join(d, "patch.diff"), cwd=wt)
         if rc != 0: raise SystemExit("patch does not apply: " + out)
@@ -81,6 +84,10 @@ def detect(d, pids, tier="quick"):
         drop(wt)
         # point the executor back at /repo
         sh("ln -sfn /repo %s/.cache/repo && touch /repo/src/lib.rs" % VERIF)
+        for f in os.listdir(genbak):
+            if f.endswith(".v") and open(os.path.join(genbak, f)).read() != (open(os.path.join(gen, f)).read() if os.path.exists(os.path.join(gen, f)) else None):
+                shutil.copy(os.path.join(genbak, f), os.path.join(gen, f))
+        shutil.rmtree(genbak, ignore_errors=True)
     old = {}
     p = os.path.join(d, "detect.json")
     if os.path.exists(p): old = json.load(open(p))
